@@ -342,6 +342,37 @@ def sp_forall_key_absent(eng, st, m):
     return V.vbool(z3.ForAll([k], z3.Not(z3.Select(m.d[0], k))))
 
 
+def sp_tagname(eng, st, i, d):
+    """header of the section holding track (instrument i, difficulty d): '<Difficulty><Instrument>'"""
+    i, d = eng.as_sym(i), eng.as_sym(d)
+    return V.vstr(z3.Concat(d.d.d, i.d.d))
+
+
+def sp_pair_of_tag(eng, st, tag):
+    """the (instrument, difficulty) pair whose section header is `tag`, or None (from the live enums)"""
+    from pyvc.source import live_module
+    from pyvc.values import OptS, TupS
+    ins = live_module("chartparse.instrument")
+    I, D = eng.reg.S["Instrument"], eng.reg.S["Difficulty"]
+    t = eng.as_sym(tag).d
+    sh = OptS(TupS([I, D]))
+    res = V.vnone_of(sh)
+    for i in ins.Instrument:
+        for d in ins.Difficulty:
+            pair = V.vsome(V.vtup([V.const_of_py(i, I), V.const_of_py(d, D)]))
+            res = V.ite(t == z3.StringVal(d.value + i.value), V.coerce(pair, sh), res)
+    return res
+
+
+def sp_lo_of(eng, st, v):
+    """first index of an islice view into its base list"""
+    return V.vint(v.d[0])
+
+
+def sp_hi_of(eng, st, v):
+    return V.vint(v.d[1])
+
+
 def sp_keys_of(eng, st, d):
     """insertion-ordered key sequence of an ordered dict value"""
     return eng.as_sym(d).d[1]
@@ -392,6 +423,10 @@ def register(reg):
     f["empty_ints"] = sp_empty_ints
     f["slice"] = sp_slice
     f["forall_key_absent"] = sp_forall_key_absent
+    f["tagname"] = sp_tagname
+    f["pair_of_tag"] = sp_pair_of_tag
+    f["lo_of"] = sp_lo_of
+    f["hi_of"] = sp_hi_of
     f["keys_of"] = sp_keys_of
     f["forall_keys"] = sp_forall_keys
     f["fn_result"] = sp_fn_result
